@@ -2,10 +2,12 @@
    the canonical N-Quads writer re-reads; FirstDegree.v: BTreeMap lemmas, step 2, invariance of
    first-degree hashes; Bijection.v: issuer invariants and the identifier map; Invariance.v: the
    tie flag erases, invariance when first-degree hashes are distinct; Relabel1.v/Relabel.v:
-   invariance under relabelling when no hash path list has two equal hashes) and adds the statements of
+   invariance under relabelling when no hash path list has two equal hashes; Entry.v/EntryProofs.v:
+   entry points with fixed limits, fallible source, writer with a byte budget, independence of the
+   final sort and of Heap's algorithm from the order of their input) and adds the statements of
    full invariance, its refutation (DESIGN.md section 4 row 28) and completeness. *)
 From Sophia.C05 Require Export Model Heap Reader NqProofs Ties FirstDegree Bijection Invariance
-  Relabel1 Relabel.
+  Relabel1 Relabel Entry EntryProofs.
 From Coq Require Import Permutation.
 
 (* a concrete injective toy hash: the input prefixed by its length *)
